@@ -56,6 +56,22 @@ def run(R):
             if n.ast is not None and n.kind in ('stmt', 'test') and any(isinstance(x, ast.Attribute) and x.attr == 'exitstatus' for x in ast.walk(n.ast)):
                 ok, p = g.dominated_by(n, set(closes))
                 c.check(ok, f, n.ast, 'exitstatus is read only after child.close()', witness=g.describe_path(p) if p else None, tag='close-first')
+    with R.clause('D6', 'CONFIG', floor=3, desc='run() hands timeout / logfile / cwd / env / extra keywords to the child it creates') as c:
+        sps = cfg_nodes_with_call(f, lambda k: callee_last(k) == 'spawn')
+        c.need(len(sps) == 2, 'run(): expected two spawn(...) calls (with and without explicit timeout)')
+        tt = [t for t in g.nodes if t.kind == 'test' and compare_parts(t.ast) and is_name(compare_parts(t.ast)[0], 'timeout') and is_const(compare_parts(t.ast)[2], -1)]
+        c.need(len(tt) == 1, 'run(): test of timeout against -1 not found')
+        m1_edge = 'true' if isinstance(compare_parts(tt[0].ast)[1], ast.Eq) else ('false' if isinstance(compare_parts(tt[0].ast)[1], ast.NotEq) else None)
+        c.need(m1_edge is not None, 'run(): timeout/-1 test not understood')
+        for n, k in sps:
+            kws = dict((kw.arg, norm(kw.value)) for kw in k.keywords if kw.arg)
+            inm1 = n in guard_region(g, tt[0], m1_edge)
+            okk = kws.get('logfile') == 'logfile' and kws.get('cwd') == 'cwd' and kws.get('env') == 'env' and any(kw.arg is None for kw in k.keywords) \
+                and k.args and is_name(k.args[0], 'command')
+            okt = ('timeout' not in kws) if inm1 else (kws.get('timeout') == 'timeout')
+            c.check(okk and okt, f, k, 'the child is created for the given command with %s and the caller\'s logfile / cwd / env / keywords'
+                    % ('the spawn default timeout (timeout == -1)' if inm1 else 'timeout=timeout'), witness=norm(k)[:120], kind='ast', tag='spawn-args:%s' % ('default' if inm1 else 'explicit'))
+        c.check(all(isinstance(n.ast, ast.Assign) and 'child' in assigned_names(n.ast) for n, k in sps), f, sps[0][1], 'both forms bind the same child variable', kind='ast', tag='child-bound')
     with R.clause('D5', 'CONSUMED', floor=1, desc='text appended on a path that keeps looping has been consumed from the pending text') as c:
         check_consumed(c, f, loop)
 
@@ -184,7 +200,9 @@ def check_dispatch(c, f, loop):
     sends = [(n, k) for n, k in cfg_nodes_with_call(f, lambda k: callee_last(k) == 'send') if n in sr]
     ok = len(sends) == 1 and norm(sends[0][1].args[0]) == R
     c.check(ok, f, sends[0][1] if sends else t1.ast, 'a string response is sent to the child exactly once', witness=str([norm(k) for n, k in sends]), kind='ast', tag='string-sent')
-    c.check('FunctionType' in norm(t2.ast) and 'MethodType' in norm(t2.ast), f, t2.ast, 'second case: function or method', witness=norm(t2.ast), kind='ast', tag='case-callable')
+    okc = isinstance(t2.ast, ast.BoolOp) and isinstance(t2.ast.op, ast.Or) and sorted(norm(v) for v in t2.ast.values) == sorted(
+        ['isinstance(responses[index], types.FunctionType)', 'isinstance(responses[index], types.MethodType)'])
+    c.check(okc, f, t2.ast, 'second case: function OR method', witness=norm(t2.ast), kind='ast', tag='case-callable')
     cr = guard_region(g, t2, 'true')
     calls_ = [(n, k) for n in cr for k in node_calls(n) if norm(k.func) == R]
     ok = len(calls_) == 1 and len(calls_[0][1].args) == 1 and norm(calls_[0][1].args[0]) == 'locals()' and isinstance(calls_[0][0].ast, ast.Assign)
@@ -232,6 +250,8 @@ def check_consumed(c, f, loop):
 MUTANTS = [
     ('list-via-dict', 'run', "    if isinstance(events, list):\n        patterns= [x for x,y in events]\n        responses = [y for x,y in events]\n    elif isinstance(events, dict):", "    if isinstance(events, list):\n        events = dict(events)\n    if isinstance(events, dict):", 'D1'),
     ('close-status-first', 'pty_spawn', "        self.flush()\n        with _wrap_ptyprocess_err():\n            # PtyProcessError may be raised if it is not possible to terminate\n            # the child.\n            self.ptyproc.close(force=force)\n        self.isalive()  # Update exit status from ptyproc", "        self.flush()\n        self.isalive()  # Update exit status from ptyproc\n        with _wrap_ptyprocess_err():\n            # PtyProcessError may be raised if it is not possible to terminate\n            # the child.\n            self.ptyproc.close(force=force)", 'D4'),
+    ('timeout-sentinel-inverted', 'run', "    if timeout == -1:\n        child = spawn(command, maxread=2000,", "    if timeout != -1:\n        child = spawn(command, maxread=2000,", 'D6'),
+    ('callable-and', 'run', "            elif (isinstance(responses[index], types.FunctionType) or\n                  isinstance(responses[index], types.MethodType)):", "            elif (isinstance(responses[index], types.FunctionType) and\n                  isinstance(responses[index], types.MethodType)):", 'D3'),
     ('append-twice', 'run', "                child_result_list.append(child.before + child.after)\n", "                child_result_list.append(child.before + child.after)\n                child_result_list.append(child.after)\n", 'D2'),
     ('append-before-only', 'run', "                child_result_list.append(child.before + child.after)\n", "                child_result_list.append(child.before)\n", 'D2'),
     ('eof-handler-no-append', 'run', "        except EOF:\n            child_result_list.append(child.before)\n            break", "        except EOF:\n            break", 'D2'),
